@@ -273,6 +273,9 @@ pub fn get_navigation_node_from_braille_position(mathml: Element, position: usiz
     if mathml.children().is_empty() {
         bail!("MathML has not been set -- can't find the navigation node for a braille position");
     }
+    // pick up any change of the preference files first -- otherwise the re-read happens in the first braille call below,
+    //   which undoes the temporary style, and the value saved here (and restored later) is not the one in the changed file
+    BRAILLE_RULES.with(|rules| rules.borrow_mut().read_files())?;
     let saved_highlight_style = get_preference("BrailleNavHighlight".to_string())?;
     set_highlight_style("EndPoints")?;
 
